@@ -506,6 +506,12 @@ func judgePoint(c *vfw.Ctx, s seriesT, n string, pr pointResult) {
 	}
 }
 
+// below these values the work proxies are runtime noise, not parser work
+const (
+	growthFloorBytes   = 64 << 10
+	growthFloorMallocs = 256
+)
+
 // judgeGrowth compares two consecutive points of a scaling series: the work proxies may grow
 // at most quadratically (times a slack of 4).
 func judgeGrowth(c *vfw.Ctx, s seriesT, n0, n1 string, a, b pointResult) {
@@ -523,8 +529,11 @@ func judgeGrowth(c *vfw.Ctx, s seriesT, n0, n1 string, a, b pointResult) {
 			if wa.Entry != wb.Entry {
 				continue
 			}
-			ra := float64(wb.Alloc) / float64(max(wa.Alloc, 1))
-			rm := float64(wb.Mallocs) / float64(max(wa.Mallocs, 1))
+			// ratios of work that is actually proportional to the input: a few hundred bytes / a handful
+			// of allocations are the runtime's own noise (a background timer, a stack growth), and a
+			// ratio of two such numbers says nothing about the parser — both proxies are floored
+			ra := float64(max(wb.Alloc, growthFloorBytes)) / float64(max(wa.Alloc, growthFloorBytes))
+			rm := float64(max(wb.Mallocs, growthFloorMallocs)) / float64(max(wa.Mallocs, growthFloorMallocs))
 			c.Add("growth_comparisons", 1)
 			if ra > lim || rm > lim {
 				c.Violate("growth:"+s.Family+":"+s.Variant, fmt.Sprintf("family %s/%s mode=%s %s: n %s -> %s multiplies TotalAlloc by %.1f (%d -> %d) and Mallocs by %.1f (%d -> %d); quadratic growth allows at most %.0f",
